@@ -44,7 +44,8 @@ class Check:
 
     # ------------------------------------------------------------------
     def rule(self, rid, text):
-        self.rules.append(f"{rid}: {text}")
+        if not any(r.startswith(f"{rid}: ") for r in self.rules):
+            self.rules.append(f"{rid}: {text}")
 
     def trust(self, text):
         if text not in self.trusted:
